@@ -138,6 +138,24 @@ def main(argv=None):
         problems = []
         if tier == "thorough" and not replay_key:
             extra, problems = witness_corpus(pid, sources, a.jobs)
+            # cross-check of the path rules: one more loop unrolling must give the same verdict
+            from . import paths as _paths
+            _paths.EXTRA_UNROLL = 1
+            try:
+                run3, err3 = evaluate(pid, sources=sources, tier=tier, seed=seed)
+            finally:
+                _paths.EXTRA_UNROLL = 0
+            if err3:
+                extra["unroll_crosscheck"] = f"not decidable at unroll+1: {err3}"
+                if "path explosion" not in err3:
+                    problems.append(f"deeper unrolling cannot be analysed: {err3}")
+            else:
+                k2 = sorted((f.rule, f.func, f.construct) for f in run.findings)
+                k3 = sorted((f.rule, f.func, f.construct) for f in run3.findings)
+                extra["unroll_crosscheck"] = {"paths_unroll": run.analysed["paths"], "paths_unroll_plus_1": run3.analysed["paths"],
+                                              "same_verdict": k2 == k3}
+                if k2 != k3:
+                    problems.append("verdict differs between loop unrolling k and k+1 (path rules are not stable)")
         new, known = split_known(run.findings, pid)
         if replay_key:
             hits = [f for f in run.findings if all(f.key()[k] == replay_key.get(k) for k in f.key())]
